@@ -841,7 +841,18 @@ func init() {
 		statusCalls(r, p)
 		p.Tail = 0
 		p.Sched = SchedCfg{YieldProb: Pick(r, []float64{0.1, 0.3, 0.6}), StallMax: Pick(r, []time.Duration{0, 0, p.H / 20})}
-		if r.Bool(0.2) {
+		if r.Bool(0.15) {
+			// preempted right after releasing a lock (up to H/4), while a foreign writer replaces
+			// the record the moment an instance's own create has been applied: the promotion and
+			// the demotion by the watcher (still running from the instance's time as a follower)
+			// overlap
+			p.Sched = SchedCfg{YieldProb: 0.7, StallMax: p.H / 4, StallSites: []string{"*:unlocked"}}
+			for i := 0; i < n; i++ {
+				p.Actions = append(p.Actions, Action{Kind: AOutPut, Key: "g1", Inst: i, OpKind: "create", OpN: 2 + r.Intn(2), Phase: "apply", Delay: 1,
+					Value: []byte(`{"id":"intruder","token":"00000000-0000-4000-8000-000000000001","priority":7}`)})
+			}
+			p.Actions = append(p.Actions, Action{At: r.Dur(2*p.H, 6*p.H), Kind: AOutDelete, Key: "g1"})
+		} else if r.Bool(0.2) {
 			// a slow demoting goroutine: up to 300 ms between the end of the claim and the
 			// OnDemote call, while the record is gone (outsider delete) and the instance
 			// re-acquires at once: the next term's OnPromote must still come after this OnDemote
